@@ -283,9 +283,10 @@ def check_ge_zero(ctx, d, scratch):
         else:
             model = ('err', g['err'])
             model_check = g['err']
+        if 'ok' not in g:
+            model = ('err', U.model_err_class(g['err']))
         if impl_err is not None:
-            impl = ('err', 'emptyMin' if isinstance(impl_err, ValueError)
-                    else U.classify_error(impl_err))
+            impl = ('err', U.classify_error(impl_err))
         else:
             impl = (bool(flag), U.as_fraction(mn))
         same = (impl == model)
@@ -359,22 +360,37 @@ def _impl_node(X, genes, norm, all_markers, node_markers):
     """(chunk, node): chunk = ('ok', data, genes) | ('err', enum)"""
     from cell_type_mapper.cell_by_gene.cell_by_gene import CellByGeneMatrix
     with np.errstate(all='ignore'):
+        stage = 'construct'
         try:
             m = CellByGeneMatrix(data=X.copy(), gene_identifiers=list(genes),
                                  normalization=norm)
+            stage = 'normalise'
             if m.normalization != 'log2CPM':
                 m.to_log2CPM_in_place()
+            stage = 'downsample'
             m.downsample_genes_in_place(list(all_markers))
         except Exception as e:    # noqa
-            err = U.classify_error(e)
+            err = '%s@%s' % (U.classify_error(e), stage)
             return ('err', err), ('err', err)
         chunk = ('ok', np.array(m.data), list(m.gene_identifiers))
         try:
             node = m.downsample_genes(selected_genes=list(node_markers))
         except Exception as e:    # noqa
-            return chunk, ('err', U.classify_error(e))
+            return chunk, ('err', '%s@downsample' % U.classify_error(e))
         return chunk, ('ok', np.array(node.data), list(node.gene_identifiers),
                        node)
+
+
+_NODE_STAGE = {'badNormalization': 'construct',
+               'geneCountMismatch': 'construct', 'dupGenes': 'construct',
+               'notRaw': 'normalise', 'genesDownsampled': 'normalise',
+               'dupSelected': 'downsample', 'keyError': 'downsample'}
+
+
+def _model_node_err(name):
+    """the model's error constructor as 'exception class @ stage of the chunk
+    preparation' (construct / normalise / downsample)"""
+    return '%s@%s' % (U.model_err_class(name), _NODE_STAGE.get(name, '?'))
 
 
 def _rows_match(impl, model_rows, norm):
@@ -472,6 +488,7 @@ def check_node(ctx, d):
             failed = True
         # (i) the guard: no normalisation after genes were removed
         for how in ('in_place', 'copy'):
+            stage = 'setup'
             try:
                 m = CellByGeneMatrix(data=X.copy(),
                                      gene_identifiers=list(genes),
@@ -480,17 +497,23 @@ def check_node(ctx, d):
                     m.downsample_genes_in_place(list(am))
                 else:
                     m = m.downsample_genes(list(am))
+                stage = 'downsampled'
                 with np.errstate(all='ignore'):
                     m.to_log2CPM_in_place()
                 got = 'ok'
             except Exception as e:    # noqa
-                got = U.classify_error(e)
-            if got != 'genesDownsampled':
+                got = '%s@%s' % (U.classify_error(e), stage)
+            # the situation decides: a raw matrix that HAS been down-selected
+            # by gene must refuse to normalise (any RuntimeError raised by
+            # that call in that state is the refusal; the same call on the
+            # full matrix succeeds -- checked by the value predicate above)
+            if got != 'RuntimeError@downsampled':
                 ctx.violation('C07/unit/guard/renormalise-allowed',
-                              'to_log2CPM_in_place() after downsample_genes'
-                              '%s gives %r, expected the genes-downsampled '
-                              'error' % ('_in_place' if how == 'in_place'
-                                         else '', got), d)
+                              'to_log2CPM_in_place() on a raw matrix after '
+                              'downsample_genes%s gives %r, expected it to '
+                              'raise a RuntimeError'
+                              % ('_in_place' if how == 'in_place' else '',
+                                 got), d)
                 failed = True
                 break
         # (ii) name addressing under a column permutation
@@ -550,7 +573,7 @@ def check_node(ctx, d):
         what = None
         mc = out['chunk']
         if 'err' in mc:
-            if chunk != ('err', mc['err']):
+            if chunk != ('err', _model_node_err(mc['err'])):
                 what = 'chunk: impl=%r model=%r' % (chunk[:2][-1] if chunk[0]
                                                     == 'err' else 'ok',
                                                     mc['err'])
@@ -566,7 +589,10 @@ def check_node(ctx, d):
         mn = out['node']
         if what is None:
             if 'err' in mn:
-                if node[:2] != ('err', mn['err']):
+                want = _model_node_err(mn['err'])
+                if 'err' not in mc:
+                    want = U.model_err_class(mn['err']) + '@downsample'
+                if node[:2] != ('err', want):
                     what = 'node: impl=%r model=%r' % (
                         node[1] if node[0] == 'err' else 'ok', mn['err'])
             else:
@@ -806,7 +832,12 @@ def check_pipeline(ctx, d, scratch, cache=None, skipped=None):
                         else int(ds.chunks[0]),
                         'unsigned': U.is_unsigned(ds.dtype), 'norm': 'raw'})
             model_ok = out['check'] == {'err': 'negativeRaw'}
-        if 'must be >= 0' not in str(res['error']) or not model_ok:
+        # the rejection the property speaks of happens BEFORE any cell is
+        # mapped: a RuntimeError, no chunk dispatched (hook trace); the
+        # wording of the message is not looked at
+        early = str(res['error']).startswith('RuntimeError') and \
+            not res.get('chunks')
+        if not early or not model_ok:
             ctx.disagreements_checked += 1
             dd = dict(d)
             dd.update({'error': str(res['error'])[:300],
@@ -1289,7 +1320,7 @@ def check_history(ctx, d, scratch):
                     'place with a negative raw value, was mapped'
                     % (j + 1, d['steps'], route, enc, dt.name), hist)
                 return
-            if 'must be >= 0' not in str(r['error']):
+            if not str(r['error']).startswith('RuntimeError'):
                 ctx.violation(
                     'C07/correspondence/negative',
                     'negative raw input is rejected, but not by the minimum '
